@@ -82,13 +82,3 @@ func opAcc(p []string) string {
 	return "I=" + runSteps(s, ts)
 }
 
-func opCborEnc(p []string) string {
-	ts, err := parseToks(p[0])
-	if err != nil {
-		return "bad-op"
-	}
-	w := &recordingWriter{}
-	s := cbor.NewEncoder(w)
-	fl := runSteps(s, ts)
-	return "I=" + fl + " " + showWrites(w.calls)
-}
